@@ -38,6 +38,12 @@ func TestC05Runs(t *testing.T) {
 			oneRun(o, r, dir, 1000+10*k+rep, mode, "limit-straggler", "first-never-finishes")
 		}
 	}
+	// a config file's later stages start new pools on the run's one pool manager: iterations of
+	// the last stage that outlive the triggering must still be waited for
+	for rep := 0; rep < kit.N(1, 4); rep++ {
+		oneRun(o, r, dir, 2000+rep, "file", "max-duration", "block-until-after-end")
+		oneRun(o, r, dir, 2100+rep, "file", "trigger-duration", "sleep-long")
+	}
 	n := kit.N(24, 240)
 	for i := 0; i < n; i++ {
 		mode := runkit.Modes[i%len(runkit.Modes)]
@@ -72,6 +78,12 @@ func oneRun(o *kit.Out, r *kit.Rand, dir string, idx int, mode, ending, body str
 			switch body {
 			case "sleep":
 				time.Sleep(3 * time.Millisecond)
+			case "sleep-long": // iterations of the last stage of the quick config file outlive the triggering
+				if time.Since(t0) > 165*time.Millisecond {
+					time.Sleep(150 * time.Millisecond)
+				} else {
+					time.Sleep(time.Millisecond)
+				}
 			case "block-until-after-end":
 				select {
 				case <-release:
@@ -150,13 +162,17 @@ func oneRun(o *kit.Out, r *kit.Rand, dir string, idx int, mode, ending, body str
 		return
 	}
 	startedAtReturn := startedN.Load()
-	timedOut := (body == "never-finish" || body == "first-never-finishes") && startedAtReturn > finishedN.Load()
+	finishedAtReturn := finishedN.Load()
+	if os.Getenv("VERIF_DEBUG") != "" {
+		fmt.Println("DEBUG", mode, ending, body, "returnedAt", returnedAt, "started", startedAtReturn, "finished", finishedAtReturn, "lastStart", time.Duration(lastStart.Load()))
+	}
+	timedOut := (body == "never-finish" || body == "first-never-finishes") && startedAtReturn > finishedAtReturn
 	// nothing starts after the return (unless the completion timeout expired: then iterations may still be running, but none may START either)
 	time.Sleep(60 * time.Millisecond)
 	lateStarts := startedN.Load() - startedAtReturn
 	unfinished := int64(0)
 	if !timedOut {
-		unfinished = startedAtReturn - finishedN.Load()
+		unfinished = startedAtReturn - finishedAtReturn
 	}
 	// triggering stopped on time: no body started later than the deadline (+ slack for scheduling)
 	late := int64(0)
